@@ -21,7 +21,7 @@ LEVEL_TEXT = ("Seeded exploration: the four sort functions are observed on every
               "every rule on live lists; the allocation result is checked against the priority order.")
 LEVEL_NOTE = "Trusted: independent key functions in this module; sampling evidence only."
 PROBES = ["sort_calls_observed", "sort_calls_nontrivial", "director_sort_calls", "mw_match_exists", "hsv_missing_skill",
-          "tie_in_keys", "contention_step", "new_alloc_checked", "json_restart_sorts", "backward_runs", "task_rule_of_sort_checked", "worker_rule_candidate_checked"]
+          "tie_in_keys", "contention_step", "new_alloc_checked", "json_restart_sorts", "backward_runs", "task_rule_of_sort_checked", "worker_rule_candidate_checked", "sorted_again_after_skill_edit"]
 
 TASK_RULES = ["TSLACK", "EST", "SPT", "LPT", "FIFO", "LRPT", "SRPT", "LWRPT", "SWRPT"]
 RES_RULES = {-1: "MW", 0: "SSP", 1: "VC", 2: "HSV"}
@@ -50,6 +50,10 @@ def gen(rng, tier):
                     w_["solo"] = True
     spec["probe_steps"] = sorted(set(rng.randint(0, 12) for _ in range(3)))
     spec["json"] = rng.random() < 0.2
+    if rng.random() < 0.15:
+        spec["skill_edit"] = rng.randint(1, 1 << 20)
+    if rng.random() < 0.06 and not spec.get("backward"):
+        spec["cfg"]["init_state"] = False  # fresh objects simulated without the state initialisation
     if rng.random() < 0.15:
         spec["backward"] = True
     return spec
@@ -395,6 +399,16 @@ def run(spec):
         if any(n not in w.get("skills", {}) for n in names):
             res.count("hsv_missing_skill")
             break
+    # a what-if edit: skills are changed in place on the same objects and the lists sorted again (keys must be current)
+    if tr.out.ok and spec.get("skill_edit") is not None:
+        import random as _r
+        rr_ = _r.Random(spec["skill_edit"])
+        for w_ in tr.ix.workers + tr.ix.facs:
+            for nm_ in list(w_.workamount_skill_mean_map):
+                if rr_.random() < 0.5:
+                    w_.workamount_skill_mean_map[nm_] = rr_.choice([0.25, 0.5, 1.0, 2.0, 4.0, 6.0])
+        res.count("sorted_again_after_skill_edit")
+        director_sorts(res, tr.project, tr.ix, names, wpids, "Director-initiated after skills were edited in place", tr.project.time)
     # sorts on a project restored from JSON (IDs are then equal-but-not-identical strings everywhere)
     if spec.get("json") and tr.out.ok:
         new, ow, orr = scen.save_load(tr.project, "mem:c11.json", spec.get("ranks"))
